@@ -12,6 +12,8 @@ CONSTANTS
   Ress <- R12
   ArgC <- NoArgs
   AttC <- NoArgs
+  SysSets <- SysNone
+  LoadVals <- NoVals
   DTMode = "full"
 CONSTRAINT GenBound
 CHECK_DEADLOCK FALSE
